@@ -628,6 +628,7 @@ func c15Run(c *Ctx, r *zsimrt.Run) {
 
 func c15Exec(c *Ctx, sc *c15Scenario, minimise bool) {
 	out := runC15(sc)
+	c.Trace(out.Digest + strings.Join(out.Log, "\n") + fmt.Sprint(len(out.Problems)))
 	c.Count("histories", 1)
 	c.Count("operations-applied", out.Applied)
 	c.Count("operation-errors", out.Errors)
